@@ -57,6 +57,16 @@ def gen_schedule(rng, nworkers, nevents, mode, flavour):
         # an own object that was only reachable from thread-local storage is now garbage: never named again
         if old and old[0] == t.tid and old[1] in t.alive and old[1] not in t.roots and old[1] not in t.stack and not referenced(t, old[1]):
             t.alive.discard(old[1])
+    def emit_end(t):
+        # the thread-local table outlives the run (the Thread object may be called again): drop references to objects the
+        # teardown is about to finalise
+        k0 = 0
+        for key, v in sorted(t.tls.items()):
+            if v[0] == t.tid and v[1] not in t.roots:
+                out(f'{t.tid} trem {key}'); del t.tls[key]; k0 += 1
+        out(f'{t.tid} end'); t.phase = 'done'
+        t.alive &= t.roots; t.stack = set()
+        return k0 + 1
     guard = 0
     while n < nevents and guard < nevents * 30:
         guard += 1
@@ -73,8 +83,12 @@ def gen_schedule(rng, nworkers, nevents, mode, flavour):
         t.nops += 1
         if op == 'spawn':
             un = [u for u in th if u.phase == 'unborn']
-            if not un or (T != 0 and free): continue
-            u = un[0]; out(f'{T} spawn {u.tid}'); u.phase = 'ready'; spawned.append(u.tid); n += 1
+            again = [u for u in th if u.phase == 'done' and u.joined]      # a joined Thread object is called again
+            if T != 0 and free: continue
+            if again and (not un or rng.random() < 0.4): u = rng.choice(again)
+            elif un: u = un[0]
+            else: continue
+            out(f'{T} spawn {u.tid}'); u.phase = 'ready'; u.joined = False; u.nops = 0; spawned.append(u.tid); n += 1
         elif op == 'join':
             if free and (T != 0 or t.held or t.try_open): continue      # a joiner that holds a Mutex the thread needs would deadlock
             done = [u for u in th if u.phase == 'done' and not u.joined]
@@ -87,7 +101,7 @@ def gen_schedule(rng, nworkers, nevents, mode, flavour):
         elif op == 'end':
             if T == 0 or t.held or t.try_open or t.pending_ld is not None or t.nops < 6: continue
             if rng.random() < 0.5: continue
-            out(f'{T} end'); t.phase = 'done'; n += 1
+            n += emit_end(t)
         elif op in ('new', 'newroot', 'newx'):
             free_k = [k for k in range(0, 40) if k not in t.used] or [k for k in range(40, MAXK) if k not in t.used]
             if not free_k: continue
@@ -201,7 +215,7 @@ def gen_schedule(rng, nworkers, nevents, mode, flavour):
     for t in th[1:]:
         if t.phase == 'running':
             if rng.random() < 0.9: out(f'{t.tid} pub {rng.randrange(1, 100000)}')
-            out(f'{t.tid} end'); t.phase = 'done'
+            emit_end(t)
     for t in th[1:]:
         if t.phase == 'done' and not t.joined: out(f'0 join {t.tid}'); out(f'0 rd {t.tid}'); t.joined = True
     out('0 gc')
@@ -230,8 +244,8 @@ class C13(Spec):
                   'others do and whatever the shared class cache contains (C13_cache_transparent); C13_frame - a step of one thread changes no other thread\'s component; '
                   'C13_exn_isolated - an exception program of one thread yields the structured-exception trace of C07 and touches no other thread; C13_mutex / C13_with_exclusive - '
                   'at every point of every UB-free schedule at most one thread is inside sections of one Mutex (lock/unlock, trylock, with) and it is the holder; '
-                  'C13_counter_exact - non-atomic increments made inside sections are never lost; C13_join / C13_join_publishes - every step of t precedes the return of '
-                  'join t and every later read yields t\'s final published value (= its solo value); C13_teardown_own / C13_teardown_step / C13_foreign_del - a collector (del, '
+                  'C13_counter_exact - non-atomic increments made inside sections are never lost; C13_join / C13_join_publishes - every step of a run of t precedes the return of '
+                  'join t and every later read (until the Thread object is called again) yields t\'s final published value (= its solo value); C13_teardown_own / C13_teardown_step / C13_foreign_del - a collector (del, '
                   'collection, the teardown in Thread_Init_Run) only ever finalises objects its own thread allocated; C13_teardown_survives_destructor_exceptions - with the epilogue '
                   'order of the current source (collector before exception record, read from the source on every run) no del, collection or thread teardown ever runs a destructor '
                   'without the thread\'s exception record (C13_teardown_old_order_refuted: the order before commit 7de4bbc crashes on a 4-event schedule). C13_source_shape_as_modelled and '
@@ -244,7 +258,7 @@ class C13(Spec):
                   'and memory-model effects, the pthread implementation, signals, the conservative stack scan (a collection is modelled with an arbitrary marked set). '
                   'Trusted: Lean kernel; harness/h_thr.c + lean/Driver/Thr.lean comparison (testing); pthread and libc.')
     rule = ('op files are schedules (tid, op): (a) scripted interleavings (mode sched) of 1-8 workers + main generated by simulating the lock/join machine, including '
-            'objects whose destructors do try/throw/catch, deliberately disabled events (blocked lock/join, unlock by a non-holder, ops of unborn/finished threads, reused serials, ill-formed lines), executed on real '
+            'objects whose destructors do try/throw/catch, Thread objects that are called again after being joined, deliberately disabled events (blocked lock/join, unlock by a non-holder, ops of unborn/finished threads, reused serials, ill-formed lines), executed on real '
             'Cello threads in exactly that order; every event outcome is compared with the model; (b) free-running schedules (mode free) of 2-16 real threads with yields/spins '
             'at op boundaries, in malloc/calloc and in the pthread calls: all local outcomes are compared with the model, synchronisation outcomes are masked; workloads '
             '(container-, allocation-, exception-, TLS-heavy) are compared with their solo digests. non-trivial = at least two threads ran and the case contains a contended '
@@ -255,17 +269,17 @@ class C13(Spec):
     assumptions = ('no uncaught exception in any thread (Exception_Error exits the whole process: every exception program is wrapped in a catch-all)',
                    'thread-local keys of the user do not start with "__" (reserved: __GC, __Exception)',
                    'a Mutex is unlocked only by its holder and not relocked by its holder (undefined behaviour / deadlock of the default pthread mutex: modelled as ub / blocked, not executed)',
-                   'a thread is joined at most once; objects referenced from another thread\'s TLS are roots that are never deleted',
+                   'a run of a thread is joined at most once (a joined Thread object may be called again); objects referenced from another thread\'s TLS are roots that are never deleted',
                    'word-sized stores to the class cache are atomic (the cache stores only the declared instance)')
     def cases(self, rng, tier, boost=1):
         quick = tier == 'quick'
         cs = []
-        nsched = (100 if quick else 800) * boost
+        nsched = (150 if quick else 1500) * boost
         for i in range(nsched):
             nw = rng.choice([1, 2, 2, 3, 4, 6, 8])
             fl = rng.choice(['mixed', 'mixed', 'locks', 'gc', 'exn', 'work'])
             cs.append(Case(f'sched{i}', gen_schedule(rng, nw, rng.choice([60, 150, 300]) if quick else rng.choice([100, 300, 600]), 'sched', fl)))
-        nfree = (100 if quick else 500) * boost
+        nfree = (150 if quick else 1000) * boost
         for i in range(nfree):
             nw = rng.choice([2, 3, 4, 6, 8, 12, 15] if quick else [2, 4, 8, 12, 15, 16])
             fl = rng.choice(['mixed', 'locks', 'locks', 'gc', 'exn', 'work', 'work'])
